@@ -340,6 +340,74 @@ fn sync_writer(req: &Value) -> R {
     }
 }
 
+// Writers that stay open across requests ("wh_open" / "wh_write" / "wh_final"), so that the harness can
+// interleave the steps of several writers of one process and look at the cache between any two of them.
+thread_local! {
+    static SYNC_HANDLES: std::cell::RefCell<std::collections::HashMap<String, cacache::SyncWriter>> =
+        std::cell::RefCell::new(std::collections::HashMap::new());
+}
+
+pub fn no_handle(wid: &str) -> Value {
+    json!({"variant":"HarnessNoWriter","wid":wid})
+}
+
+fn sync_handle(req: &Value) -> R {
+    let wid = s(req, "wid").to_string();
+    let cache = s(req, "cache");
+    match s(req, "op") {
+        "wh_open" => {
+            let opts_v = req.get("opts");
+            let w = if has(req, "key") {
+                build_opts(opts_v).open_sync(cache, s(req, "key"))
+            } else {
+                build_opts(opts_v).open_hash_sync(cache)
+            }
+            .map_err(|e| staged(err_json(&e), "open"))?;
+            SYNC_HANDLES.with(|h| h.borrow_mut().insert(wid, w));
+            Ok(json!({"opened":true}))
+        }
+        "wh_write" => {
+            let mut w = SYNC_HANDLES.with(|h| h.borrow_mut().remove(&wid)).ok_or_else(|| no_handle(&wid))?;
+            let c = get_data(&req["data"]);
+            let mut off = 0usize;
+            let mut calls = 0u64;
+            let mut res: R = Ok(Value::Null);
+            while off < c.len() {
+                match w.write(&c[off..]) {
+                    Ok(0) => {
+                        res = Err(json!({"variant":"StdIo","kind":"WriteZero","stage":"write"}));
+                        break;
+                    }
+                    Ok(n) => {
+                        off += n;
+                        calls += 1;
+                    }
+                    Err(e) => {
+                        res = Err(staged(ioerr_json(&e), "write"));
+                        break;
+                    }
+                }
+            }
+            if res.is_ok() && req.get("flush").and_then(|x| x.as_bool()).unwrap_or(false) {
+                if let Err(e) = w.flush() {
+                    res = Err(staged(ioerr_json(&e), "flush"));
+                }
+            }
+            SYNC_HANDLES.with(|h| h.borrow_mut().insert(wid, w));
+            res.map(|_| json!({"written":off,"calls":calls}))
+        }
+        _ => {
+            let w = SYNC_HANDLES.with(|h| h.borrow_mut().remove(&wid)).ok_or_else(|| no_handle(&wid))?;
+            if s(req, "final") == "drop" {
+                drop(w);
+                return Ok(json!({"dropped":true}));
+            }
+            let sri = w.commit().map_err(|e| staged(err_json(&e), "commit"))?;
+            Ok(json!({"sri":sri.to_string()}))
+        }
+    }
+}
+
 /// Optional delay between the last chunk and commit(), so that "time of the commit" and "time the writer was
 /// opened" can be told apart by the harness.
 pub fn pause_before_commit(req: &Value) {
@@ -469,6 +537,7 @@ pub fn exec_sync(req: &Value) -> R {
             r.map(|i| json!({"sri":i.to_string()})).map_err(ce)
         }
         "writer" => sync_writer(req),
+        "wh_open" | "wh_write" | "wh_final" => sync_handle(req),
         "read" => cacache::read_sync(cache, s(req, "key"))
             .map(|d| json!({"data":put_data(&d)}))
             .map_err(ce),
